@@ -22,7 +22,7 @@ class Ob:
     rule: str
     instance: str  # qualified function / class / call-site description
     loc: str  # file:line
-    ok: bool
+    ok: bool | None  # True holds, False violated (a violating construct was positively identified), None undecided (abstained)
     detail: str
     key: str = ""  # normalised statement text (line-number free) used to match known findings
     path: list[str] = field(default_factory=list)
@@ -90,9 +90,18 @@ class Ctx:
         if key is None:
             kn = key_node if key_node is not None else (node if node is not None and not isinstance(node, str) else None)
             key = _short_key(kn) if kn is not None else ""
-        ob = Ob(f"{self.prop}.{rule}" if not rule.startswith(self.prop) else rule, instance, loc, bool(ok), detail, key, list(path or []))
+        ob = Ob(f"{self.prop}.{rule}" if not rule.startswith(self.prop) else rule, instance, loc, None if ok is None else bool(ok), detail, key, list(path or []))
         self.obs.append(ob)
         return ob
+
+    def tri(self, rule: str, fn_or_instance, node, good: bool, bad: bool, good_msg: str, bad_msg: str, undecided_msg: str = "", **kw) -> Ob:
+        """Three-valued obligation: holds when the accepted shape is recognised, violated only when the violating
+        construct is positively identified, otherwise the rule abstains (reported, never an alarm)."""
+        if good:
+            return self.add(rule, fn_or_instance, node, True, good_msg, **kw)
+        if bad:
+            return self.add(rule, fn_or_instance, node, False, bad_msg, **kw)
+        return self.add(rule, fn_or_instance, node, None, "UNDECIDED: " + (undecided_msg or "the construct was rewritten into a shape this rule does not recognise; it abstains instead of guessing"), **kw)
 
     def floor(self, rule: str, matched: int, minimum: int) -> None:
         """A rule that matched fewer constructs than confirmed by hand is an analysis error."""
@@ -147,7 +156,10 @@ def finish(ctx: Ctx, *, t0: float, explanation: str, trusted: list[str], decline
            selftest: dict | None = None, write: bool = True) -> int:
     prop = ctx.prop
     known = [k for k in load_known() if k["property"] == prop]
-    failing = [o for o in ctx.obs if not o.ok]
+    failing = [o for o in ctx.obs if o.ok is False]
+    undecided = [o for o in ctx.obs if o.ok is None]
+    for o in undecided:
+        print(f"UNDECIDED {o.rule} {o.loc} [{o.instance}] {o.detail[:200]}")
     listed: list[tuple[Ob, dict]] = []
     unlisted: list[Ob] = []
     for o in failing:
@@ -175,13 +187,14 @@ def finish(ctx: Ctx, *, t0: float, explanation: str, trusted: list[str], decline
     rules = sorted({o.rule for o in ctx.obs})
     distinct = len({(o.rule, o.instance, o.key) for o in ctx.obs})
     samples = [
-        {"rule": o.rule, "construct": o.instance, "at": o.loc, "verdict": "holds" if o.ok else "FAILS", "what": o.detail[:240]}
-        for o in (failing[:6] + [o for o in ctx.obs if o.ok][:: max(1, len(ctx.obs) // 14)])[:20]
+        {"rule": o.rule, "construct": o.instance, "at": o.loc, "verdict": "holds" if o.ok else ("FAILS" if o.ok is False else "undecided"), "what": o.detail[:240]}
+        for o in (failing[:6] + undecided[:3] + [o for o in ctx.obs if o.ok][:: max(1, len(ctx.obs) // 14)])[:20]
     ]
     coverage = {
         "explanation": explanation,
         "obligations": len(ctx.obs),
-        "discharged": sum(o.ok for o in ctx.obs),
+        "discharged": sum(o.ok is True for o in ctx.obs),
+        "undecided": len(undecided),
         "evaluations": len(ctx.obs),
         "distinct_nontrivial": distinct,
         "rule": "one obligation = one rule applied to one source construct (function, call site, branch, field) found by "
@@ -221,6 +234,6 @@ def finish(ctx: Ctx, *, t0: float, explanation: str, trusted: list[str], decline
     if write:
         EVIDENCE.mkdir(parents=True, exist_ok=True)
         (EVIDENCE / f"{prop}.json").write_text(json.dumps(ev, indent=1, default=str))
-    print(f"{prop} [{ctx.tier}]: {len(ctx.obs)} obligations, {sum(o.ok for o in ctx.obs)} hold, "
+    print(f"{prop} [{ctx.tier}]: {len(ctx.obs)} obligations, {sum(o.ok is True for o in ctx.obs)} hold, {len(undecided)} undecided, "
           f"{len(listed)} known finding(s), {len(unlisted)} violation(s); {len(rules)} rules; {ev['wall_s']}s")
     return rc
